@@ -10,6 +10,7 @@ COQ_IMPORTS = ('From Coq Require Import QArith Uint63.\n'
                'From VRP Require Import Base.Tac Model.SlotQ Model.SlotF Model.Reward Model.Termination.\nOpen Scope Z_scope.')
 MODEL_TARGETS = ['theories/Model/SlotQ.vo', 'theories/Model/SlotF.vo', 'theories/Model/Reward.vo', 'theories/Model/Termination.vo']
 SIZES = {'quick': 2200, 'thorough': 15000, 'search': 6000}
+SUBSTREAMS = ['c18_selector', 'c18_term']     # the adaptive selector itself (DynamicSelective as a state machine); termination structs / statistics bit for bit
 RULE = ('cases: (slot) reward histories fed to the real SlotMachine with a recording sampler - exact dyadic histories '
         '(compared as rationals with the Q model and bit for bit with the primitive-float twin) and general float histories '
         '(0, denormals, 1e-300..1e9, repeats, alternating extremes, length <= 2000; twin bit for bit + invariant oracle at every '
@@ -897,18 +898,35 @@ MANIFEST_TEXT = ('Machine-checked proof (Coq) over an exact-arithmetic (Q) execu
                  'the sampler arguments are valid for every gamma draw, random_argmax/weighted return an index of a configured operator for '
                  'every random stream, 0 <= reward <= 3(2N+1) (<= 3(N+1) for non-negative fitness; the documented [0,6] only for N = 1: refuted '
                  'with witnesses), estimates lie in [0,1], MinVariation fires iff generation >= sample-1 and no objective column has cv > threshold. '
-                 'Over f64: a bit-exact twin of the slot machine over Coq primitive floats is compared bit for bit with the real SlotMachine on every run '
-                 '(all float histories), and for this twin it is proved (Flocq IEEE-754 formalisation, universally quantified) that for every finite prior '
-                 'and rewards of magnitude <= 2^480 and at most 2^52 updates: alpha is exactly 1 + n/2, beta is finite, >= 10, non-decreasing, the Gamma scale '
-                 '1/beta is finite and > 0, v and mu are finite (no NaN/inf anywhere, 0 < v <= beta, |mu| <= 2^480(1+2^-52)), the sampler arguments are valid '
-                 '(std_dev finite >= 0, no division by zero) for every gamma draw that is 0 or finite >= 2^-1022, and the mean stays within 2^-52*2^m of the hull; '
-                 'the Q model is compared as rationals on exact dyadic inputs; the invariants are also evaluated on the implementation output.')
-MANIFEST_NOTE = ('Trusted: Coq kernel + vm_compute + primitive floats; harness, generators, comparison. The f64-level theorems (C18_float_*) depend on '
-                 'standard-library axioms only: the classical reals (ClassicalDedekindReals.sig_forall_dec, sig_not_dec, Classical_Prop.classic, '
+                 'The adaptive selector itself (DynamicSelective: SearchAgent::{new,search,update}, SearchAction::take, HeuristicTracker with the '
+                 'RemedianUsize, search / search_many) is a state machine over (search state, operator index) with the slot machines inside; sampler '
+                 'outputs (any f64 incl. NaN/inf), tie bits and durations are oracle streams: for every history selection is total and picks a '
+                 'configured operator with a maximal sampled value, only the chosen slot of the row of the from-state changes, every slot is the slot '
+                 'machine run on exactly the rewards routed to it (so all per-slot theorems hold for every slot after every history), rewards fed to '
+                 'update lie in [0, 9(2N+1)]; zero operators: the first search panics. '
+                 'Over f64: bit-exact twins over Coq primitive floats of the slot machine, the reward estimation, the selector, the termination '
+                 'estimates, get_variance_mean / get_cv, MinVariation (sample and period interval), relative_distance / TargetProximity and Noise are '
+                 'compared bit for bit with the real code on every run (DynamicSelective through its public API with the repeatable RNG on a fresh '
+                 'thread, sampler draws replayed by a shadow), and it is proved (Flocq, universally quantified): slot machine - for finite prior and '
+                 'rewards <= 2^480 and <= 2^52 updates alpha is exactly 1 + n/2, beta finite, >= 10, non-decreasing, scale 1/beta finite > 0, v, mu finite, '
+                 'sampler arguments valid for every gamma draw that is 0 or >= 2^-1022, mean within 2^-52*2^m of the hull; rewards - for fitness of '
+                 'magnitude <= 2^1022 the relative value is in [0,2], the distance reward finite in [0, 3(2N+1)], the multiplier one of twelve constants '
+                 'in (0.5,3] for all inputs, the reward finite in [0, 9(2N+1)] (N < 2^48); selector - every history with such fitness (<= 2^52 searches, any '
+                 'sampler outputs) leaves every slot of both rows finite and valid with valid sampler arguments; MaxGeneration estimate in [0,1] for all '
+                 'generation, limit < 2^63 (limit 0 gives 1), MaxTime estimate in [0,1] for every elapsed >= 0 and every limit that is NaN or has a clear '
+                 'sign bit (+0, denormal with overflow to +inf, +inf), composite in [0,1]; get_variance_mean finite for <= 2^30 values <= 2^480; '
+                 'relative_distance finite >= 0. MinVariation period mode (clock and shuffle as oracles): fires iff period elapsed, >= 2 entries and the '
+                 'threshold test passes on the retained window = the entries inside the period (monotone clock; at least two kept, except a state of exactly '
+                 'three entries), compaction keeps every tenth entry in time order; TargetProximity fires iff sqrt(sum of squared relative changes) < threshold '
+                 '(real square root); Noise::generate equations. The invariants are also evaluated on the implementation output.')
+MANIFEST_NOTE = ('Trusted: Coq kernel + vm_compute + primitive floats; harness, generators, comparison. The f64-level theorems (C18_float_*, C18_selector_float_*) '
+                 'depend on standard-library axioms only: the classical reals (ClassicalDedekindReals.sig_forall_dec, sig_not_dec, Classical_Prop.classic, '
                  'functional_extensionality_dep) and the primitive float/int specification (FloatAxioms, Uint63); they hold under explicit bounds '
-                 '(|prior|, |reward| <= 2^480 finite, <= 2^52 updates, gamma draw 0 or >= 2^-1022) and fail outside (one reward 2^512 -> beta NaN; draw 5e-324 -> '
-                 'std_dev inf: witnesses). Not proved over f64: rewards, termination estimates, MinVariation (Q only). '
-                 'f64 mean can leave the hull by rounding, rewards exceed the documented [0,6] for N >= 2 objectives or '
-                 'opposite-sign fitness and overflow to inf near f64::MAX (known findings). MinVariation period mode, Noise and TargetProximity '
-                 'firing are not modelled.')
+                 '(|prior|, |reward| <= 2^480 finite, <= 2^52 updates, gamma draw 0 or >= 2^-1022; |fitness| <= 2^1022, N < 2^48; generation, limit < 2^63; '
+                 '<= 2^30 values <= 2^480 for the variance) and fail outside (one reward 2^512 -> beta NaN; draw 5e-324 -> std_dev inf; fitness +-1.7e308 -> reward '
+                 'inf; MaxTime limit -0.0 -> estimate -inf: witnesses). f64 mean can leave the hull by rounding, rewards exceed the documented [0,6] for '
+                 'N >= 2 objectives or opposite-sign fitness and overflow to inf near f64::MAX (known findings). Not proved over f64: the decision of '
+                 'get_cv > threshold against the real coefficient of variation (the twin is compared bit for bit; the iff-theorems are exact arithmetic), '
+                 'SelectionSamplingIterator is not modelled. The wall clock of MaxTime / MinVariation period mode and the sampler draws inside '
+                 'DynamicSelective are oracle arguments read off the run (bracketed clock reads, stored time stamps, shadow replay of the repeatable RNG).')
 MANIFEST_TECHNIQUE = 'Coq proof over executable Q model + primitive-float twin, vm_compute differential correspondence with the Rust implementation'
